@@ -32,15 +32,20 @@ type Source struct {
 	pos   int
 }
 
+// ErrValue is the error a scripted fault returns: ErrScripted normally; io.EOF for requests that carry the
+// token re=eof (an exhausted file- or buffer-backed source: helpers such as io.Copy treat io.EOF as a normal end,
+// so a sender that stops checking the byte count fails OPEN exactly there). Written only by such requests.
+var ErrValue error = ErrScripted
+
 func (s *Source) Read(p []byte) (int, error) {
 	if s.pos >= len(s.Reads) {
-		return 0, ErrScripted
+		return 0, ErrValue
 	}
 	r := s.Reads[s.pos]
 	s.pos++
 	n := copy(p, r.Data)
 	if r.Err {
-		return n, ErrScripted
+		return n, ErrValue
 	}
 	return n, nil
 }
